@@ -1004,10 +1004,17 @@ class Device(device.Device):
 
     def send_rsp_recv_cmd(self, target, data, timeout):
         assert timeout is None or timeout >= 0
+        if timeout is None:
+            recv_timeout = 0xFFFF
+        elif timeout > 0:
+            # the chipset takes 1 to 65535 ms, 0 means do not receive
+            recv_timeout = max(min(int(timeout * 1E3), 0xFFFF), 1)
+        else:
+            recv_timeout = 0
         kwargs = {
             'guard_time': 500,
             'transmit_data': data,
-            'recv_timeout': 0xFFFF if timeout is None else int(timeout*1E3),
+            'recv_timeout': recv_timeout,
         }
         try:
             data = self.chipset.tg_comm_rf(**kwargs)
